@@ -1,7 +1,7 @@
 SPECIFICATION TSpec
 CONSTANTS
   BaseKeys = {"s1", "s2", "s3"}
-  BlindKeys = {"b1", "b2", "b3", "b4", "lead0", "geN", "one"}
+  BlindKeys = {"b1", "b2", "b3", "b4", "lead0", "geN", "one", "bzero"}
   Contexts = {"", "ctxA", "ctxB", "long", "rare1", "rare2", "rare3"}
   Digests = {"d0", "d1", "d2", "dlong", "dlong0", "dlongf"}
   MaxDepth = 100
